@@ -3,6 +3,8 @@ package main
 // C09 (arguments/results unchanged, in order) and C17 (wire frames follow the documented protocol).
 
 import (
+	"sync"
+	"errors"
 	"bytes"
 	"context"
 	"encoding/base64"
@@ -176,6 +178,40 @@ func c09Workload[T any](rep *Report, codec Codec[T], api string, rng *rand.Rand,
 			gj, _ := json.Marshal(r.val)
 			wj, _ := json.Marshal(wantBack)
 			rep.addViolation("property", "C09:"+api+":result", fmt.Sprintf("caller got %s, one round-trip of the handler's value gives %s", gj, wj), cd)
+		}
+	}
+	// the same remote function called from many goroutines at once: every call's arguments arrive as ITS caller sent them
+	{
+		const g, per = 8, 12
+		var wg sync.WaitGroup
+		var mu sync.Mutex
+		var bad []string
+		for w := 0; w < g; w++ {
+			w := w
+			wg.Add(1)
+			go func() {
+				defer wg.Done()
+				for k := 0; k < per; k++ {
+					xs := []int{w, k, w*1000 + k, 7}
+					want := w + k + w*1000 + k + 7
+					r := withWatchdog(func() (any, error) { return ra.Sum(context.Background(), xs) })
+					str := fmt.Sprintf("w%d-k%d", w, k)
+					r2 := withWatchdog(func() (any, error) { return ra.Echo(context.Background(), w*100+k, str) })
+					mu.Lock()
+					if !r.ok || r.err != nil || r.val.(int) != want {
+						bad = append(bad, fmt.Sprintf("Sum(%v) = %+v, want %d", xs, r, want))
+					}
+					if !r2.ok || r2.err != nil || !strings.HasSuffix(r2.val.(string), fmt.Sprintf("#%d#%s", w*100+k, str)) {
+						bad = append(bad, fmt.Sprintf("Echo(%d,%q) = %+v", w*100+k, str, r2))
+					}
+					mu.Unlock()
+				}
+			}()
+		}
+		wg.Wait()
+		rep.Evaluations += g * per * 2
+		if len(bad) > 0 {
+			rep.addViolation("property", "C09:"+api+":concurrent-args", fmt.Sprintf("%d goroutines calling the same remote functions concurrently: %d calls got another call's arguments or result, e.g. %s", g, len(bad), bad[0]), desc)
 		}
 	}
 	// other arities
@@ -575,6 +611,78 @@ func c17Foreign(rep *Report) {
 	}
 }
 
+// c17ClosureFrames: the requests the CALLEE emits when it invokes a closure it was handed
+// ({function: "CallClosure", args: [<closure id>, [<closure arguments>]]}): the argument list is an array with one
+// element per closure argument — an empty array, never null, for a closure that takes only the context.
+func c17ClosureFrames[T any](rep *Report, codec Codec[T]) {
+	p, err := NewPair(codec, PairOpts{API: "message"})
+	desc := map[string]any{"suite": "C17-closure-frames", "codec": codec.Name}
+	if err != nil {
+		rep.addViolation("property", "C17:setup", "link setup failed: "+err.Error(), desc)
+		return
+	}
+	ra, _, _ := p.A.AnyRemote()
+	ctx := context.Background()
+	r1 := withWatchdog(func() (any, error) {
+		return ra.Tick(ctx, 2, func(ctx context.Context) (int, error) { return 21, nil })
+	})
+	r2 := withWatchdog(func() (any, error) {
+		return ra.WithClosure(ctx, 2, false, func(ctx context.Context, i int, s string) (string, error) { return s, nil })
+	})
+	time.Sleep(5 * time.Millisecond)
+	frames := p.BReq.Frames()
+	p.Shutdown()
+	if !r1.ok || r1.err != nil || r1.val.(int) != 42 || !r2.ok || r2.err != nil {
+		rep.addViolation("property", "C17:closure-frames:call", fmt.Sprintf("closure-carrying calls failed: %+v %+v", r1, r2), desc)
+		return
+	}
+	want := []int{0, 0, 2, 2} // closure arities, in the order the invocations happen
+	if len(frames) != len(want) {
+		rep.addViolation("property", "C17:closure-frames:count", fmt.Sprintf("4 closure invocations produced %d request frames from the callee", len(frames)), desc)
+		return
+	}
+	ids := map[string]bool{}
+	for i, fr := range frames {
+		rep.Evaluations++
+		rep.Distinct++
+		cd := map[string]any{"suite": "C17-closure-frames", "codec": codec.Name, "frame": string(fr), "closure_arity": want[i]}
+		g, err := codec.Generic(fr)
+		m, ok := normMap(g)
+		if err != nil || !ok {
+			rep.addViolation("property", "C17:closure-frames:undecodable", "CallClosure request does not decode to a map", cd)
+			continue
+		}
+		id, _ := m["call"].(string)
+		fn, _ := m["function"].(string)
+		args, isArr := m["args"].([]any)
+		switch {
+		case len(m) != 3 || id == "" || ids[id] || fn != "CallClosure":
+			rep.addViolation("property", "C17:closure-frames:shape", fmt.Sprintf("closure invocation request has members %v", m), cd)
+			continue
+		case !isArr || len(args) != 2:
+			rep.addViolation("property", "C17:closure-frames:args", fmt.Sprintf("closure invocation request carries args=%v (want [id, argument list])", m["args"]), cd)
+			continue
+		}
+		ids[id] = true
+		// the second argument, separately encoded: the closure's argument list
+		var list any
+		var derr error
+		if codec.Name == "cbor-raw" {
+			list = args[1]
+		} else if pb, ok := payloadBytes(codec.Name, args[1]); ok {
+			list, derr = codec.Generic(pb)
+		} else {
+			derr = errors.New("not a payload")
+		}
+		xs, isList := list.([]any)
+		if derr != nil || !isList {
+			rep.addViolation("property", "C17:closure-frames:arglist-null", fmt.Sprintf("a closure taking %d argument(s) is invoked with the argument list %v: it must be an array (an empty array, never null, for none)", want[i], list), cd)
+		} else if len(xs) != want[i] {
+			rep.addViolation("property", "C17:closure-frames:arglist-len", fmt.Sprintf("a closure taking %d argument(s) is invoked with %d", want[i], len(xs)), cd)
+		}
+	}
+}
+
 func runC17(rep *Report, tier string, seed int64) {
 	rep.Rule = "every frame emitted for a workload covering arity 0..3, the four return shapes, nil / non-blank / blank / empty error messages, nested names and a closure argument is captured at the transport, decoded with an independent generic decoder " +
 		"and checked against the documented shape, for 3 serializer configurations × 2 link APIs (stream: envelope carries exactly one member); each frame is also compared with the Lean wire model's rendering; hand-written foreign frames are sent to a real registry. distinct = frames"
@@ -583,6 +691,9 @@ func runC17(rep *Report, tier string, seed int64) {
 		c17Workload(rep, jsonBytes(), api)
 		c17Workload(rep, cborRaw(), api)
 	}
+	c17ClosureFrames(rep, jsonRaw())
+	c17ClosureFrames(rep, jsonBytes())
+	c17ClosureFrames(rep, cborRaw())
 	c17Foreign(rep)
 	_ = tier
 	_ = seed
